@@ -37,6 +37,7 @@
 #include "options.h"
 #include "tables.h"
 #include "parse.h"
+#include <signal.h>
 
 static char flex_version[] = FLEX_VERSION;
 
@@ -161,6 +162,14 @@ int flex_main (int argc, char *argv[])
 		}
 		return exit_status - 1;
 	}
+
+#ifdef SIGPIPE
+	/* A filter process that dies early (for instance because the header
+	 * file cannot be created) must surface as a write error and an exit
+	 * status, not kill flex with SIGPIPE.
+	 */
+	signal (SIGPIPE, SIG_IGN);
+#endif
 
 	flexinit (argc, argv);
 
